@@ -50,6 +50,7 @@ type interpreter struct {
 	curFrame           *frame
 	initDirect         bool
 	mutexes            map[*value]*mutexState
+	atomics            map[*value]*atomicClock
 }
 
 type deferred struct {
